@@ -553,12 +553,14 @@ func (c *sweepChooser) Len(s site, t reflect.Type) int {
 	return 2
 }
 
-func (c *sweepChooser) MapKey(s site, i int) uint64 { return []uint64{7, 0, 4294967295, 1, 2, 3}[i%6] }
+func (c *sweepChooser) MapKey(s site, i int) uint64     { return []uint64{7, 0, 4294967295, 1, 2, 3}[i%6] }
 func (c *sweepChooser) ElemNil(site, reflect.Type) bool { return false }
 
 // ptrIsField: the pointer is a struct FIELD (not the value of an interface field - a variant - and not an element of a
 // collection; those sites end in ")" or "]").
-func ptrIsField(s site) bool { return !strings.HasSuffix(s.Pattern, ")") && !strings.HasSuffix(s.Pattern, "]") }
+func ptrIsField(s site) bool {
+	return !strings.HasSuffix(s.Pattern, ")") && !strings.HasSuffix(s.Pattern, "]")
+}
 
 // assignments enumerates, for one message type, the default variant assignment and every single deviation from it
 // (recursively: a variant may itself contain interface fields).
